@@ -24,6 +24,8 @@ func init() {
 		Assumptions: []string{"the TOML decoder fills Config fields by their tags"},
 		Run:         runC11,
 		Mutants: []Mutant{
+			{Name: "runner-drops-problems-of-unselected-checks", File: "lintcmd/runner/runner.go", Rule: "R11.7", KeyPart: "miss-path-reads-Config.Checks",
+				Old: "\t\tdiags = append(diags, a.Diagnostics...)\n", New: "\t\tif len(pkgAct.cfg.Checks) != 1 || pkgAct.cfg.Checks[0] != \"none\" {\n\t\t\tdiags = append(diags, a.Diagnostics...)\n\t\t}\n"},
 			{Name: "merge-appends-to-inherited-list", File: "config/config.go", Rule: "R11.6", KeyPart: "mergeLists::append-to-own-storage",
 				Old: "func mergeLists(a, b []string) []string {\n", New: "func mergeLists(a, b []string) []string {\n\tif len(b) > 0 && b[0] == \"inherit\" && !slices.Contains(b[1:], \"inherit\") {\n\t\treturn append(a, b[1:]...)\n\t}\n",
 				More: []Edit{{File: "config/config.go", Old: "\t\"reflect\"\n", New: "\t\"reflect\"\n\t\"slices\"\n"}}},
@@ -568,6 +570,12 @@ func runC11(c *Ctx) {
 	// list that was appended to in place, or compacted/sorted in place, can
 	// alias the inherited list (DefaultConfig, the parent directory's config)
 	// and is then overwritten by the next package's merge.
+	// R11.7: all analyzers always run and the selection is applied to their
+	// results afterwards (lintcmd's success/filter step). The runner — including
+	// every function value it is handed — never looks at the selection, so that
+	// cached results are the results of all checks, whatever run stored them.
+	c.Rule("R11.7", func() { checksReadOnMissPath(c) })
+
 	c.Rule("R11.6", func() {
 		c.Floor("R11.6", 3)
 		var isFresh func(v ssa.Value, seen map[ssa.Value]bool) bool
